@@ -62,33 +62,64 @@ Proof. rewrite av_gt_num_spec. unfold le_numb. destruct (cmpv (sections a) (sect
 Section WithOracle.
 Variable orc : avop -> pstr -> pstr -> option bool.
 
-(* ---- the three generated tests, on dotted numeric input *)
+(* ---- the three generated tests, on dotted numeric input.  The proofs accept any
+   spelling of the test that means the same (operands swapped, negated, ...):
+   the test is first given its numeric meaning, then compared with the wanted
+   one by cases on the comparison of the sections. *)
+Definition op_sem (op : avop) (same : bool) (c : comparison) : bool :=
+  match op with
+  | OpLt => match c with Lt => true | _ => false end
+  | OpGt => match c with Gt => true | _ => false end
+  | OpEq => same
+  | OpNe => negb same
+  | OpLe => same || match c with Lt => true | _ => false end
+  | OpGe => same || match c with Gt => true | _ => false end
+  end.
+
+Lemma av_num_sem op l r :
+  av_num op l r = op_sem op (pstr_eqb l r) (cmpv (sections l) (sections r)).
+Proof. destruct op; simpl; rewrite ?av_lt_num_spec, ?av_gt_num_spec; reflexivity. Qed.
+
+Lemma eval_vtest_num t v k :
+  dotted_numeric (side_val (vt_l t) v k) = true -> dotted_numeric (side_val (vt_r t) v k) = true ->
+  eval_vtest orc t v k =
+  Some (xorb (vt_neg t)
+          (op_sem (vt_op t) (pstr_eqb (side_val (vt_l t) v k) (side_val (vt_r t) v k))
+             (cmpv (sections (side_val (vt_l t) v k)) (sections (side_val (vt_r t) v k))))).
+Proof.
+  intros Hl Hr. unfold eval_vtest, av_cmp. rewrite Hl, Hr. cbn [andb option_map].
+  rewrite av_num_sem. reflexivity.
+Qed.
+
+Ltac side_dotted H := cbn [vt_l vt_r side_val]; first [exact H | assumption | vm_compute; reflexivity].
+
 Lemma get_const_test_num v k : dotted_numeric v = true -> dotted_numeric k = true ->
   eval_vtest orc get_const_test v k = Some (le_numb (sections k) (sections v)).
 Proof.
-  intros Hv Hk. unfold eval_vtest, get_const_test, av_cmp. cbn [vt_neg vt_op vt_l vt_r side_val].
-  rewrite Hv, Hk. cbn [andb option_map av_num xorb]. rewrite <- not_lt_is_le.
-  destruct (av_lt_num v k); reflexivity.
+  intros Hv Hk. unfold get_const_test. rewrite eval_vtest_num by side_dotted Hv.
+  cbn [vt_neg vt_op vt_l vt_r side_val op_sem]. unfold le_numb.
+  rewrite ?(cmpv_antisym (sections v) (sections k)).
+  destruct (cmpv (sections v) (sections k)); reflexivity.
 Qed.
 
 Lemma is_version_test_num v : dotted_numeric v = true ->
   eval_vtest orc is_version_test v [] = Some (negb (le_numb [1; 4] (sections v))).
 Proof.
-  intros Hv. unfold eval_vtest, is_version_test, av_cmp. cbn [vt_neg vt_op vt_l vt_r side_val].
-  replace (dotted_numeric (s2p "1.4")) with true by (vm_compute; reflexivity).
-  rewrite Hv. cbn [andb option_map av_num xorb].
-  replace [1; 4] with (sections (s2p "1.4")) by (vm_compute; reflexivity).
-  rewrite <- not_gt_is_le. destruct (av_gt_num (s2p "1.4") v); reflexivity.
+  intros Hv. unfold is_version_test. rewrite eval_vtest_num by side_dotted Hv.
+  cbn [vt_neg vt_op vt_l vt_r side_val op_sem]. unfold le_numb.
+  replace (sections (s2p "1.4")) with [1; 4] by (vm_compute; reflexivity).
+  rewrite ?(cmpv_antisym (sections v) [1; 4]).
+  destruct (cmpv (sections v) [1; 4]); reflexivity.
 Qed.
 
 Lemma is_sensor_test_num v : dotted_numeric v = true ->
   eval_vtest orc is_sensor_test v [] = Some (le_numb [2; 0] (sections v)).
 Proof.
-  intros Hv. unfold eval_vtest, is_sensor_test, av_cmp. cbn [vt_neg vt_op vt_l vt_r side_val].
-  replace (dotted_numeric (s2p "2.0")) with true by (vm_compute; reflexivity).
-  rewrite Hv. cbn [andb option_map av_num xorb].
-  replace [2; 0] with (sections (s2p "2.0")) by (vm_compute; reflexivity).
-  rewrite <- not_lt_is_le. destruct (av_lt_num v (s2p "2.0")); reflexivity.
+  intros Hv. unfold is_sensor_test. rewrite eval_vtest_num by side_dotted Hv.
+  cbn [vt_neg vt_op vt_l vt_r side_val op_sem]. unfold le_numb.
+  replace (sections (s2p "2.0")) with [2; 0] by (vm_compute; reflexivity).
+  rewrite ?(cmpv_antisym (sections v) [2; 0]).
+  destruct (cmpv (sections v) [2; 0]); reflexivity.
 Qed.
 
 (* ---- get_const scans the keys in the generated order *)
@@ -210,32 +241,60 @@ Proof.
   destruct (safe_is_version orc v); reflexivity.
 Qed.
 
-(* anything the oracle rejects (not comparable, or older than 1.4) falls back to 1.4 *)
+(* is_version's test on a value whose str() is not dotted numeric is the oracle's verdict *)
+Lemma is_version_test_oracle (s : pstr) : dotted_numeric s = false ->
+  eval_vtest orc is_version_test s [] =
+  option_map (xorb (vt_neg is_version_test))
+    (orc (vt_op is_version_test) (side_val (vt_l is_version_test) s []) (side_val (vt_r is_version_test) s [])).
+Proof.
+  intro Hd. unfold eval_vtest, av_cmp, is_version_test. cbn [vt_neg vt_op vt_l vt_r side_val].
+  rewrite Hd, ?andb_false_r. cbn [andb]. reflexivity.
+Qed.
+
+(* anything the library cannot compare, or finds older than 1.4, falls back to 1.4 *)
 Theorem nonnumeric_fallback (v : val) :
-  dotted_numeric (py_str v) = false ->
-  (orc OpGt (s2p "1.4") (py_str v) = None \/ orc OpGt (s2p "1.4") (py_str v) = Some true) ->
+  (eval_vtest orc is_version_test (py_str v) [] = None
+   \/ eval_vtest orc is_version_test (py_str v) [] = Some true) ->
   safe_is_version orc v = Ok (s2p "1.4")
   /\ gateway_const orc v = Ok fallback_module /\ node_const orc v = Ok fallback_module.
 Proof.
-  intros Hd Ho.
+  intros Ho.
   assert (Hs : safe_is_version orc v = Ok (s2p "1.4")).
-  { unfold safe_is_version, is_version, eval_vtest, is_version_test, av_cmp.
-    cbn [vt_neg vt_op vt_l vt_r side_val]. rewrite Hd, andb_false_r.
-    destruct Ho as [-> | ->]; reflexivity. }
+  { unfold safe_is_version, is_version. destruct Ho as [-> | ->]; reflexivity. }
   split; [exact Hs|]. rewrite node_same_rule. split; unfold gateway_const; rewrite Hs; cbn [bind];
     (rewrite get_const_floor by (vm_compute; reflexivity)); vm_compute; reflexivity.
 Qed.
 
 (* ... and anything it accepts is kept as written *)
 Theorem nonnumeric_accepted (v : val) :
-  dotted_numeric (py_str v) = false -> orc OpGt (s2p "1.4") (py_str v) = Some false ->
+  eval_vtest orc is_version_test (py_str v) [] = Some false ->
   safe_is_version orc v = Ok (py_str v).
-Proof.
-  intros Hd Ho. unfold safe_is_version, is_version, eval_vtest, is_version_test, av_cmp.
-  cbn [vt_neg vt_op vt_l vt_r side_val]. rewrite Hd, andb_false_r, Ho. reflexivity.
-Qed.
+Proof. intros Ho. unfold safe_is_version, is_version. rewrite Ho. reflexivity. Qed.
 
 End WithOracle.
+
+(* ---- finding (known, version/container-word): awesomeversion's SpecialContainer words
+   "latest", "dev", "stable", "beta" compare greater than every numeric version, so
+   they are neither incomparable nor older than 1.4: the full statement "every
+   non-numeric string falls back to 1.4" is false.  container_orc is the library's
+   verdict on such a word (the harness checks it against awesomeversion on every run). *)
+Definition container_orc (w : pstr) : avop -> pstr -> pstr -> option bool :=
+  fun op l r =>
+    if pstr_eqb l w then Some (match op with OpGt | OpGe | OpNe => true | _ => false end)
+    else if pstr_eqb r w then Some (match op with OpLt | OpLe | OpNe => true | _ => false end)
+    else None.
+
+Lemma nonnumeric_fallback_refuted :
+  exists (orc : avop -> pstr -> pstr -> option bool) (v : val),
+    dotted_numeric (py_str v) = false
+    /\ forallb (fun c => negb (is_digit c)) (py_str v) = true
+    /\ safe_is_version orc v = Ok (py_str v)
+    /\ gateway_const orc v = Ok (s2p "mysensors.const_22")
+    /\ node_const orc v = Ok (s2p "mysensors.const_22")
+    /\ (do s <- safe_is_version orc v; wants_presentation orc s) = Ok true.
+Proof.
+  exists (container_orc (s2p "dev")), (VStr (s2p "dev")). vm_compute. repeat split.
+Qed.
 
 (* ---- what counts as a dotted numeric string *)
 Example sections_examples :
